@@ -10,7 +10,7 @@ class C01(KernelProp):
     n_ops = (10, 30)
     weights = {"new": 8, "enter": 10, "exit": 9, "add": 14, "addtd": 22, "addf": 3, "getnw": 4, "get": 2,
                "finish": 1, "getall": 1, "current": 1, "parent": 0, "spawn": 1, "state": 3}
-    gen_kwargs = {"td_depth": 3, "malformed": 0.03, "wrong_state": 0.03, "many_callbacks": True, "exc_end": 0.5, "p_cancel": 0.2, "p_mid": 0.25, "p_comp": 0.25}
+    gen_kwargs = {"td_depth": 3, "malformed": 0.03, "wrong_state": 0.03, "many_callbacks": True, "exc_end": 0.5, "p_cancel": 0.2, "p_mid": 0.25, "p_comp": 0.25, "body_get": True}
     rule = ("operation sequences over <=8 contexts / 3 tasks on both back-ends with 0-12 teardown callbacks per context "
             "registered through add_teardown_callback, the module-level shortcut and add_resource(teardown_callback=), "
             "sync/async, with/without pass_exception, raising Exception/BaseException subclasses, registering further "
